@@ -323,7 +323,8 @@ def normalize_depth_variables(
             # Update this so the deep-to-shallow normalization can use it
             data_positive_down = positive_down
 
-        if deep_to_shallow is not None:
+        # A single layer is in either order already
+        if deep_to_shallow is not None and new_variable.size > 1:
             # Check if the existing data goes from deep to shallow, correcting for
             # the positive_down we just adjusted above. This assumes that depth
             # data are monotonic across all values. If this is not the case,
